@@ -84,7 +84,7 @@ type Config struct {
 
 type Stats struct {
 	Steps, Switches, ClockJumps, VoluntaryClock, ForeignFired int
-	MapDecisions, MapNonSorted                                int
+	MapDecisions, MapNonSorted, MapKeyTies                    int
 	SelectMulti, MutexContended, ChanSendBlocked              int
 	Settled, TimersFired, BusyAdvance, SortYields, Quiescent  int
 }
